@@ -132,6 +132,11 @@ SNIPPETS = {
     'surrogate_docstring': 'def f():\n    "doc \\ud800 x"\n',
     'method_wrapped_twice': 'class C:\n    def f(): pass\n    f = staticmethod(f)\n    f = staticmethod(f)\n    @staticmethod\n    def g(): pass\n    g = classmethod(g)\n    def h(self): pass\n    h = classmethod(h)\n    h = staticmethod(h)\n',
     'implementer_non_class': 'from zope.interface import implementer, classImplements\ndef some_function(): pass\nVALUE = 1\n@implementer(some_function, VALUE)\nclass K:\n    def m(self): "doc"\n    def some_function(self): pass\nclassImplements(K, VALUE)\n',
+    'zope_called_interface': 'from zope.interface import implementer, Interface\nfrom zope.interface.interface import InterfaceClass\n'
+                             'class MyIC(InterfaceClass):\n    pass\nIThing = MyIC("IThing")\nIUnused = MyIC("IUnused", (Interface,), {})\n'
+                             '@implementer(IThing)\nclass Thing:\n    def m(self): "doc"\nIPlain = InterfaceClass("IPlain")\n',
+    'repeated_headings': 'def f():\n    """\n    Intro.\n\n    Usage\n    =====\n\n    a\n\n    Usage\n    =====\n\n    b\n\n    Usage\n    =====\n\n    c\n\n    Usage\n    =====\n\n    d\n    """\n'
+                         'class C:\n    """\n    Notes\n    -----\n    x\n\n    Notes\n    -----\n    y\n\n    Notes\n    -----\n    z\n    """\n',
     'odd_docstrings': 'def a():\n    "\\x00"\ndef b():\n    "L{"\ndef c():\n    """\n    @param: x\n    @type\n    """\ndef d():\n    b"bytes doc"\ndef e():\n    f"fstring {doc}"\ndef f():\n    "a" "b"\ndef g():\n    1\ndef h():\n    "%s" % 1\n',
     'docstring_fields': 'def f(a, b):\n    """\n    @param a: x\n    @param a: again\n    @param c: missing\n    @type a: L{int\n    @type: nothing\n    @return: r\n    @return: r2\n    @rtype: x\n    @rtype: y\n    @raise: z\n    @keyword k: kk\n    @ivar i: on a function\n    """\n'
                         'class C:\n    """\n    @ivar a: x\n    @ivar a: dup\n    @cvar a: again\n    @type a: int\n    @type b: no such\n    @param p: for init\n    @ivar: noname\n    @var v:\n    """\n    a = 1\n',
@@ -293,7 +298,7 @@ def run_case(case, keep=False):
     import contextlib, io
     buf = io.StringIO()
     old = signal.signal(signal.SIGALRM, _alarm)
-    signal.alarm(300)
+    signal.alarm(120)
     try:
         with contextlib.redirect_stdout(buf), contextlib.redirect_stderr(buf):
             try:
@@ -301,7 +306,7 @@ def run_case(case, keep=False):
             except SystemExit as ex:
                 rc = ('SystemExit', ex.code)
             except _Timeout:
-                rc = ('HANG', '300 s')
+                rc = ('HANG', '120 s')
             except BaseException as ex:     # noqa
                 import traceback
                 tb = traceback.extract_tb(ex.__traceback__)
@@ -357,6 +362,6 @@ HARNESS = {
                    'pydoctor/astutils.py:unstring_annotation', 'pydoctor/templatewriter/writer.py:flattenToFile', 'pydoctor/templatewriter/pages/__init__.py:format_signature'],
         'bound': f'{len(SNIPPETS)} module texts (unparsable files, odd metadata variables, every definition form, extensions, deep/long expressions), {len(TREES)} '
                  'whole trees (missing __init__, name clashes, non-identifier file names, import cycles), 60 (1500) random line/token mutations of them, '
-                 '13 standard-library modules and mutations of them; docformats rotate; real driver in-process, 300 s per run',
+                 '13 standard-library modules and mutations of them; docformats rotate; real driver in-process, 120 s per run',
         'budget_s': {'quick': 420, 'thorough': 6000}},
 }
